@@ -42,6 +42,9 @@ func (rc *CRespCodec) Decode(c CConn) (*Msg, error) {
 
 	line, err := buf.ReadLine()
 	if err != nil {
+		if err == codec.ErrInvalidResp || err == codec.BadLine {
+			return nil, codec.ErrInvalidResp
+		}
 		return nil, errors.ErrIncompletePacket
 	}
 
@@ -280,6 +283,9 @@ func (rc *CRespCodec) MSet(resp *Msg) {
 func (rc *CRespCodec) parseLine(buf *codec.Buffer) ([]byte, error) {
 	line, err := buf.ReadLine()
 	if err != nil {
+		if err == codec.BadLine {
+			return nil, codec.ErrInvalidResp
+		}
 		return nil, err
 	}
 	switch line[0] {
